@@ -2,6 +2,7 @@
   C17  Configuration loading: accepted means safe to run, rejected means an error.
   Model: AuthModel.Config.load (the pipeline of LocalConfigFile.Validate after protojson decoding).
 -/
+import AuthProofs.CodeEquivInternal
 import AuthProofs.StateInventory
 import AuthProofs.Config
 import AuthModel.Generated.Facts
@@ -88,6 +89,18 @@ example : load uX { okDoc with chains := [{ name := B "n", criterion := none, fi
 /-- NO HIDDEN STATE: regenerated inventory of package internal (loader, TLS pool, file watcher), internal/http and internal/k8s: the only mutable state is the watcher table, the pool map and the secret index. -/
 theorem no_hidden_state : InfraInventory := infra_inventory
 
+/-- `isCookieNameToken` and `isRootPath` AS TRANSLATED FROM THE GO SOURCE on this run are the loader model's rules: a
+    cookie-name prefix is accepted iff every byte is visible US-ASCII and none of the RFC 2616 separators `()<>@,;:\\\"/[]?={}`
+    (the counting loop never indexes out of range); a path is root iff it is `/` or empty. All 256 byte values are
+    compared by the kernel (`badTokenByte_spec`). -/
+theorem code_loader_rules (env : Go.Env) (s : Str) :
+    Code.isCookieNameToken env s = .ok (Config.isCookieNameToken s) ∧ Code.isRootPath env s = .ok (Config.isRootPath s) :=
+  ⟨code_isCookieNameToken env s, code_isRootPath env s⟩
+
+example : Code.isCookieNameToken {} (B "my-app_2") = .ok true := by decide
+example : Code.isCookieNameToken {} (B "x; Domain=e.org") = .ok false := by decide
+example : Code.isCookieNameToken {} (B "") = .ok true := by decide
+
 end AuthProps.C17
 
 #print axioms AuthProps.C17.accepted_resolved
@@ -99,3 +112,4 @@ end AuthProps.C17
 #print axioms AuthProps.C17.untyped_filter_rejected
 #print axioms AuthProps.C17.scope_constant_matches_source
 #print axioms AuthProps.C17.no_hidden_state
+#print axioms AuthProps.C17.code_loader_rules
